@@ -14,10 +14,10 @@ PROP = {
                   "space/tab/CR/LF, redundant parentheses), parse_ref (print c) = Ok (norm_top c), including adequacy of the fuel; C16_model_total proves that under the pinned shape of `literal` "
                   "(QG_LITERAL_REJECTS_BARE_EXISTS = 1, regenerated from query_grammar.rs) parse_ref never panics, for every string (C16_strict_total_refuted keeps the witness for the "
                   "old shape, F12, fixed in 7a6b9829a). Partial: (1) panic-freedom and termination of the nom-based Rust parser are TESTED (fuzz stream), not proved - and are "
-                  "violated on the unchanged tree: F161 (stack overflow on deep nesting), F162 (endless loop of the lenient parser); a panic of the strict entry point is an ordinary violation since the F12 fix; (2) lenient = strict is tested "
+                  "violated on the unchanged tree: F161 (stack overflow on deep nesting); a panic of the strict entry point (F12, fixed) or a non-returning lenient parse (F162, fixed) is an ordinary violation; (2) lenient = strict is tested "
                   "only, the lenient grammar is not modelled, and it is violated (F13); (3) bare words, field scoping, slop/prefix, ranges, IN sets, exists, boosts, NOT, field groups and typed literals are covered by "
                   "the tie (parse_ref vs parse_query on every generated and fuzzed string) and by the spec cases (norm_top / Count vs the documented meaning evaluated in Coq), "
-                  "not by C16_print_parse; typed literals only for text, raw-string and u64 fields. Mixed implicit/explicit operator lists are outside the documented grammar: "
+                  "not by C16_print_parse; typed literals only for text, raw-string and u64 fields. Phrases: C16_phrase_matches_own_text proves that a phrase built with the analyzer's positions matches every document containing its text, for every token filter; the Count layer runs phrases (plain, ~slop: lower/upper bound, prefix) through analyzers that remove words (RemoveLongFilter limit pinned from the sources, a stop-word field) against that positional model; F163 (phrase-prefix scorer, gap before the prefix term) is a known finding. Mixed implicit/explicit operator lists are outside the documented grammar: "
                   "the model reproduces the code, no semantic claim.",
     "level_note": "Trusted: Coq kernel + vm_compute; pin.py (SPECIAL_CHARS / ESCAPE_IN_WORD regenerated from query_grammar.rs); the Rust harness (generators, structural rendering of "
                   "UserInputAst, child-process isolation of inputs that may hang or overflow the stack). char::is_whitespace and nom multispace are small literal tables in "
